@@ -118,6 +118,70 @@ fn table_spec(prop: &str, thorough: bool, rng: &mut Rng, universe: u32, n_ops: u
     Some(RunSpec { world, cfg, gen: g, n_ops })
 }
 
+pub const SET_CORE: &[(Kd, u32)] = &[
+    (Kd::Insert, 30),
+    (Kd::Remove, 12),
+    (Kd::Take, 4),
+    (Kd::Replace, 5),
+    (Kd::GetOrInsert, 4),
+    (Kd::GetOrInsertWith, 4),
+    (Kd::Get, 4),
+    (Kd::GetView, 2),
+    (Kd::ContainsKey, 3),
+    (Kd::Entry, 5),
+    (Kd::Extend, 3),
+    (Kd::FromIter, 1),
+    (Kd::Clear, 1),
+    (Kd::Reserve, 1),
+    (Kd::ShrinkTo, 1),
+    (Kd::ShrinkToFit, 1),
+    (Kd::Retain, 2),
+    (Kd::WithCapacity, 1),
+    (Kd::New, 1),
+];
+const SET_WORLDS: &[(&str, u32)] = &[("S8", 3), ("S24", 3), ("S1", 2), ("S2", 2)];
+
+/// The HashSet variant of a property's profile (None: the property has no set part).
+fn set_spec(prop: &str, thorough: bool, rng: &mut Rng, universe: u32, n_ops: usize) -> Option<RunSpec> {
+    let world = pick_world(rng, SET_WORLDS);
+    let mut cfg = base_cfg(rng, 3);
+    let mut n_ops = n_ops;
+    let mut g = match prop {
+        "C07" => {
+            // equal sets with different layouts: independent plans and histories per slot
+            cfg.plans = (0..3).map(|_| Plan::random(rng)).collect();
+            gen(Family::Set, *rng.pick(&[4u32, 8, 16, 24, 40, 64]), with(SET_CORE, &[(Kd::SetOp, 22), (Kd::SetOpAssign, 14), (Kd::SetPred, 10), (Kd::EqSlots, 3), (Kd::Replace, 3), (Kd::GetOrInsertWith, 3), (Kd::CloneTo, 2), (Kd::Extend, 4)], rng))
+        }
+        "C02" => {
+            let mut g = gen(Family::Set, universe, with(SET_CORE, &[(Kd::Iter, 6), (Kd::IntoIter, 8), (Kd::Drain, 8), (Kd::ExtractIf, 8), (Kd::Entry, 4), (Kd::SetOp, 4), (Kd::SetOpAssign, 4)], rng));
+            g.allow_forget = true;
+            g
+        }
+        "C03" => gen(Family::Set, universe, with(SET_CORE, &[(Kd::IntoIter, 8), (Kd::Drain, 6), (Kd::ExtractIf, 6), (Kd::Retain, 4), (Kd::CloneFrom, 6), (Kd::Replace, 4), (Kd::Take, 4), (Kd::SetOpAssign, 6), (Kd::DropSlot, 2)], rng)),
+        "C04" => {
+            n_ops = rng.range(8, if thorough { 120 } else { 80 }) as usize;
+            gen(Family::Set, *rng.pick(&[12u32, 40, 64, 100]), with(SET_CORE, &[(Kd::CloneFrom, 4), (Kd::ExtractIf, 3), (Kd::Retain, 3), (Kd::FillNoAlloc, 2), (Kd::SetOpAssign, 6), (Kd::SetOp, 3), (Kd::Extend, 3)], rng))
+        }
+        "C09" => gen(Family::Set, universe, with(SET_CORE, &[(Kd::Iter, 30), (Kd::IntoIter, 8), (Kd::Drain, 8)], rng)),
+        "C10" => gen(Family::Set, universe, with(SET_CORE, &[(Kd::Retain, 14), (Kd::ExtractIf, 16), (Kd::Drain, 12)], rng)),
+        "C11" => {
+            cfg.plans = (0..3).map(|_| Plan::random(rng)).collect();
+            gen(Family::Set, universe.min(64), with(SET_CORE, &[(Kd::CloneTo, 8), (Kd::CloneFrom, 16), (Kd::EqSlots, 14)], rng))
+        }
+        _ => return None,
+    };
+    g.macro_den = *rng.pick(&[8, 15, 30]);
+    Some(RunSpec { world, cfg, gen: g, n_ops })
+}
+
+fn set_share(prop: &str) -> u64 {
+    match prop {
+        "C07" => 100,
+        "C02" | "C03" | "C04" | "C09" | "C10" | "C11" => 15,
+        _ => 0,
+    }
+}
+
 /// Share (percent) of a property's runs that go to the HashTable worlds.
 fn table_share(prop: &str) -> u64 {
     match prop {
@@ -130,6 +194,12 @@ fn table_share(prop: &str) -> u64 {
 /// Builds the run specification of one simulated run of `prop`.
 pub fn spec_for(prop: &str, thorough: bool, rng: &mut Rng) -> RunSpec {
     let universe = universe_for(rng, thorough);
+    if rng.below(100) < set_share(prop) {
+        let n_ops = if thorough { rng.range(10, 400) } else { rng.range(10, 220) } as usize;
+        if let Some(s) = set_spec(prop, thorough, rng, universe, n_ops) {
+            return s;
+        }
+    }
     if rng.below(100) < table_share(prop) {
         let n_ops = if thorough { rng.range(10, 400) } else { rng.range(10, 220) } as usize;
         if let Some(s) = table_spec(prop, thorough, rng, universe, n_ops) {
@@ -308,6 +378,7 @@ pub fn owns(prop: &str, v: &Violation) -> bool {
         "C04" => starts(c, "postpanic/") || safety || starts(c, "alloc/") || starts(c, "ledger/"),
         "C05" => safety || starts(c, "diverge/") || starts(c, "byz/") || starts(c, "ledger/") || starts(c, "alloc/") || starts(c, "getmany/alias") || starts(c, "panic/"),
         "C06" => functional || starts(c, "entry/") || starts(c, "iterhash/") || starts(c, "reinsert/") || starts(c, "retain/") || starts(c, "extract/") || starts(c, "drain/yield") || starts(c, "getmany/"),
+        "C07" => functional || starts(c, "setalg/") || starts(c, "set/") || starts(c, "entry/"),
         "C08" => starts(c, "cap/") || starts(c, "drain/allocation") || starts(c, "alloc/size-mismatch"),
         "C09" => starts(c, "iter/") || starts(c, "iterlen/") || (functional && ["Iter", "IntoIter", "SetIter", "TIter"].contains(&k)),
         "C10" => starts(c, "retain/") || starts(c, "extract/") || starts(c, "drain/") || (functional && ["Retain", "ExtractIf", "Drain"].contains(&k)),
